@@ -18,6 +18,7 @@ VERIF = os.path.dirname(os.path.dirname(os.path.abspath(__file__)))
 PY = os.environ.get('VERIF_PYTHON', '/venv/bin/python')
 REPO = os.environ.get('VERIF_REPO', '/repo')
 DEPS = os.path.join(VERIF, '.deps')
+OUT = os.environ.get('VERIF_OUT', VERIF)  # evidence/ and replays/ go here (scratch dir for mutant self-tests)
 WHEELS = '/opt/veriftools/wheels'
 
 
@@ -210,7 +211,7 @@ def minimise_and_confirm(prop, tier, seed, b, v, sig):
         if not conf or 'error' in conf or sig not in conf.get('sigs', []):
             return None
     first = [x for x in conf['violations'] if f"{x['prop']}/{x['oracle']}/{x['disc']}" == sig][0]
-    d = os.path.join(VERIF, 'replays', prop)
+    d = os.path.join(OUT, 'replays', prop)
     os.makedirs(d, exist_ok=True)
     path = os.path.join(d, f"{seed}-{v['idx']}-{H(sig) % 100000:05d}.json")
     body = {
@@ -286,7 +287,7 @@ def write_evidence(prop, tier, seed, agg, states, samples, known_hit, unknown, r
         'property_id': prop, 'tier': tier, 'seed': seed, 'level': LEVEL[prop], 'coverage': cov,
         'assumptions': ASSUMPTIONS.get(prop, ASSUMPTIONS['default']), 'wall_s': round(wall_s, 2), 'violations': len(reported),
     }
-    d = os.path.join(VERIF, 'evidence')
+    d = os.path.join(OUT, 'evidence')
     os.makedirs(d, exist_ok=True)
     with open(os.path.join(d, f'{prop}.json'), 'w') as f:
         json.dump(ev, f, indent=1, sort_keys=True)
